@@ -901,6 +901,30 @@ def _ptrarith(e, st, op, a, b, w):
     return Undef(w)
 
 
+def _acnorm(kind, mk, A, B):
+    """AC-normal form: flatten nested applications of the same operator and order operands by AST id, so that
+    two computations of the same sum/xor in different association/order build the identical (hash-consed) term"""
+    terms = []
+    todo = [B, A]
+    while todo:
+        x = todo.pop()
+        if z3.is_app_of(x, kind): todo.extend(x.children())
+        else: terms.append(x)
+    consts = [t for t in terms if z3.is_bv_value(t)]
+    if len(consts) > 1:
+        w = consts[0].size(); m = (1 << w) - 1
+        acc = consts[0].as_long()
+        for t in consts[1:]:
+            v = t.as_long()
+            acc = ((acc + v) & m) if kind == z3.Z3_OP_BADD else (acc ^ v) if kind == z3.Z3_OP_BXOR else (acc & v) if kind == z3.Z3_OP_BAND else (acc | v)
+        terms = [t for t in terms if not z3.is_bv_value(t)] + [z3.BitVecVal(acc, w)]
+    terms.sort(key=lambda t: t.get_id())
+    r = terms[0]
+    for t in terms[1:]:
+        r = mk(r, t)
+    return r
+
+
 def _small(x, d=5):
     if d == 0: return x.num_args() == 0
     for c in x.children():
